@@ -580,6 +580,13 @@ class IrToWasmCompiler:
     to_i16 = ["i32.extend16_s"]
     to_u16 = [("i32.const", 0xFFFF), "i32.and"]
     to_u32 = [("i64.const", 0xFFFFFFFF), "i64.and"]
+    truncate_map = {
+        "I8": to_i8,
+        "U8": to_u8,
+        "I16": to_i16,
+        "U16": to_u16,
+        "U32": to_u32,
+    }
 
     cast_operators2 = {
         # float to int:
@@ -680,6 +687,9 @@ class IrToWasmCompiler:
             opcode = self.binop_map[tree.name]
             self.stack -= 1
             self.emit(opcode)
+            if tree.name[:3] in ("ADD", "SUB", "MUL", "SHL"):
+                # The result may not fit in a type smaller than its wasm type
+                self.emit_all(self.truncate_map.get(tree.name[3:], []))
         elif tree.name in self.mov_operators:
             self.do_tree(tree[0])
             self.emit("local.set", self.get_value(tree.value))
@@ -691,6 +701,7 @@ class IrToWasmCompiler:
             self.emit("i32.const", 0)
             self.do_tree(tree[0])
             self.emit("i32.sub")
+            self.emit_all(self.truncate_map.get(tree.name[3:], []))
         elif tree.name == "NEGI64":
             self.emit("i64.const", 0)
             self.do_tree(tree[0])
@@ -735,11 +746,7 @@ class IrToWasmCompiler:
             self.do_tree(tree[0])
         elif tree.name in self.cast_operators2:
             self.do_tree(tree[0])
-            for instruction in self.cast_operators2[tree.name]:
-                if isinstance(instruction, tuple):
-                    self.emit(*instruction)
-                else:
-                    self.emit(instruction)
+            self.emit_all(self.cast_operators2[tree.name])
         elif tree.name == "CALL":
             function_name, argv, rv = tree.value
             for _, argument in argv:
@@ -826,6 +833,14 @@ class IrToWasmCompiler:
         instruction = components.Instruction(opcode, *args)
         # print(instruction.to_string())  # , instruction.to_bytes())
         self.instructions.append(instruction)
+
+    def emit_all(self, instructions):
+        """Emit a sequence of opcodes or (opcode, argument) tuples"""
+        for instruction in instructions:
+            if isinstance(instruction, tuple):
+                self.emit(*instruction)
+            else:
+                self.emit(instruction)
 
     def push_block(self, kind):
         self._block_stack.append(kind)
